@@ -37,6 +37,9 @@ type session struct {
 	StallAt   int64 // -1 none
 	Stalled   chan struct{}
 	Release   chan struct{}
+	StallAt2  int64 // a second hold further down the stream (-1 none)
+	Stalled2  chan struct{}
+	Release2  chan struct{}
 	Forwarded int64 // stream bytes forwarded (atomic under mu)
 	Closed    bool
 }
@@ -64,6 +67,7 @@ type Proxy struct {
 	// plan is asked once per AOF command (pos, leader size seen by the follower); it returns the number of
 	// stream bytes after which to hold the stream, or -1.
 	plan   func(pos, leaderSz int64) int64
+	plan2  func(pos, leaderSz int64) int64
 	closed bool
 	// parkAt: "" = relay normally; "dial" = accept and hold before anything is relayed; "reject" = accept and close;
 	// otherwise a set of lower-case command names ("server", "aofmd5|aof", "replconf", "aof"): the first such command
@@ -138,6 +142,19 @@ func (p *Proxy) Close() {
 func (p *Proxy) SetPlan(f func(pos, leaderSz int64) int64) {
 	p.mu.Lock()
 	p.plan = f
+	p.plan2 = nil
+	p.mu.Unlock()
+}
+
+func (p *Proxy) SetPlan2(f func(pos, leaderSz int64) int64) {
+	p.mu.Lock()
+	p.plan2 = f
+	p.mu.Unlock()
+}
+
+func (p *Proxy) SetTarget(port int) {
+	p.mu.Lock()
+	p.target = port
 	p.mu.Unlock()
 }
 
@@ -159,6 +176,11 @@ func (p *Proxy) ReleaseAll() {
 		case <-s.Release:
 		default:
 			close(s.Release)
+		}
+		select {
+		case <-s.Release2:
+		default:
+			close(s.Release2)
 		}
 	}
 	p.mu.Unlock()
@@ -293,7 +315,10 @@ func (p *Proxy) serve(id int, c net.Conn) {
 		p.hold(id, "dial")
 	}
 	parked := false
-	u, err := net.DialTimeout("tcp", "127.0.0.1:"+strconv.Itoa(p.target), 2*time.Second)
+	p.mu.Lock()
+	target := p.target
+	p.mu.Unlock()
+	u, err := net.DialTimeout("tcp", "127.0.0.1:"+strconv.Itoa(target), 2*time.Second)
 	if err != nil {
 		return
 	}
@@ -356,10 +381,14 @@ func (p *Proxy) serve(id int, c net.Conn) {
 			if len(args) == 2 && strings.HasPrefix(short, "+OK") {
 				pos, _ := strconv.ParseInt(args[1], 10, 64)
 				ses = &session{Conn: id, Accepted: p.accepted[id], Pos: pos, LeaderSz: leaderSz, Probes: p.probes, AofOK: true,
-					StallAt: -1, Stalled: make(chan struct{}), Release: make(chan struct{})}
+					StallAt: -1, Stalled: make(chan struct{}), Release: make(chan struct{}),
+					StallAt2: -1, Stalled2: make(chan struct{}), Release2: make(chan struct{})}
 				p.probes = nil
 				if p.plan != nil {
 					ses.StallAt = p.plan(pos, leaderSz)
+				}
+				if p.plan2 != nil {
+					ses.StallAt2 = p.plan2(pos, leaderSz)
 				}
 				p.sessions = append(p.sessions, ses)
 			}
@@ -389,7 +418,7 @@ func (p *Proxy) stream(ses *session, c, u net.Conn, cr, ur *bufio.Reader) {
 		p.mu.Unlock()
 	}()
 	buf := make([]byte, 1<<15)
-	stalled := false
+	stalled, stalled2 := false, false
 	for {
 		n, err := ur.Read(buf)
 		data := buf[:n]
@@ -412,6 +441,25 @@ func (p *Proxy) stream(ses *session, c, u net.Conn, cr, ur *bufio.Reader) {
 				close(ses.Stalled)
 				select {
 				case <-ses.Release:
+				case <-time.After(30 * time.Second):
+				}
+				continue
+			}
+			if ses.StallAt2 >= 0 && !stalled2 && fw+int64(len(data)) > ses.StallAt2 {
+				k := ses.StallAt2 - fw
+				if k > 0 {
+					if _, err := c.Write(data[:k]); err != nil {
+						return
+					}
+					p.mu.Lock()
+					ses.Forwarded += k
+					p.mu.Unlock()
+					data = data[k:]
+				}
+				stalled2 = true
+				close(ses.Stalled2)
+				select {
+				case <-ses.Release2:
 				case <-time.After(30 * time.Second):
 				}
 				continue
